@@ -45,6 +45,9 @@ KINDS = {
     # styles that have a line form and a block form
     "cpp": ("j.cpp", "cpp"),
     "js": ("k.js", "cpp"),
+    # names that look like format fields to whoever builds a message with str.format
+    "brace": ("{app} {0} {}.c", "c"),
+    "brace2": ("{6B29FC40-CA47}.c", "c"),
 }
 UNREC = ("unrec", "unrecnoext")
 TERMINATOR = {"html": "-->", "c": "*/", "jinja": "#}", "ml": "*)", "cpp": "*/"}
